@@ -70,6 +70,11 @@ func runPersisting(w *appx.World, g appx.Genesis, ops []appx.Op) *c13rec {
 	n := node{a: a}
 	for _, o := range ops {
 		h := a.LastBlockHeight + 1
+		if o.Kind != "endblock" {
+			// the running node's mempool has checked the transaction before it is
+			// executed in a block (the node that is restarted later replays blocks only)
+			a.CheckTx(abcitypes.RequestCheckTx{Tx: w.Tx(a, o, n.nonce())})
+		}
 		r := w.Step(a, o, n.nonce())
 		n.nops++
 		rec.resp = append(rec.resp, r.Bytes)
